@@ -53,7 +53,8 @@ _built = {}
 def build_bin(name):
     if name in _built:
         return _built[name]
-    env = dict(os.environ, CARGO_NET_OFFLINE="true", RUSTUP_TOOLCHAIN=os.environ.get("RUSTUP_TOOLCHAIN", "stable"))
+    env = dict(os.environ, CARGO_NET_OFFLINE="true", RUSTUP_TOOLCHAIN=os.environ.get("RUSTUP_TOOLCHAIN", "stable"),
+               CARGO_TARGET_DIR=os.path.join(HARNESS, "target"))
     t0 = time.time()
     r = sh(["cargo", "build", "--offline", "--quiet", "--bin", name], cwd=HARNESS, env=env)
     if r.returncode != 0:
